@@ -42,6 +42,7 @@ type Contract struct {
 	Sites    []Clause // site obligations: "site <matcher>: expr"
 	RangeInv []Clause // invariant of a sync.Map.Range call in this function (over visited(k))
 	Ats      []*AtHook // source-line hooks: assertions before / ghost assignments after a source line
+	NoLockLedger bool  // the lock-discipline obligations are not part of this function's claim
 	Dispatch bool      // interface contract: known implementations are dispatched to, the contract covers other dynamic types
 	File     string
 	Line     int
@@ -98,7 +99,7 @@ var propRe = regexp.MustCompile(`^\[((?:C[0-9]+\s*)+)\]\s*(.*)$`)
 
 var keywords = map[string]bool{"func": true, "iface": true, "property": true, "use": true, "requires": true, "ensures": true,
 	"loop": true, "modifies": true, "trusted": true, "inline": true, "pure": true, "axiom": true, "lemma": true,
-	"ghost": true, "smt": true, "let": true, "extern": true, "macro": true, "rangeinv": true, "at": true, "dispatch": true, "chan": true, "site": true, "nopanic": true, "end": true, "note": true, "params": true}
+	"ghost": true, "smt": true, "let": true, "extern": true, "macro": true, "rangeinv": true, "at": true, "dispatch": true, "nolockledger": true, "chan": true, "site": true, "nopanic": true, "end": true, "note": true, "params": true}
 
 func (e *Engine) loadContracts(dir string, pkg *types.Package) error {
 	path := filepath.Join(dir, "verif_contracts.go")
@@ -255,6 +256,8 @@ func (e *Engine) loadContracts(dir string, pkg *types.Package) error {
 			}
 		case "dispatch":
 			cur.Dispatch = true
+		case "nolockledger":
+			cur.NoLockLedger = true
 		case "at":
 			// at "<text>" assert label: expr   |   at "<text>" set g(key) := value
 			m := regexp.MustCompile(`^"([^"]*)"\s+(assert|set|assume)\s+(.*)$`).FindStringSubmatch(rest)
